@@ -170,6 +170,16 @@ def split_statements(kids: List[Tok]) -> List[List[Tok]]:
         if not cur and t.is_group('{'):
             stmts.append([t]); i += 1
             continue
+        if not cur and t.is_id('fn'):
+            # a nested fn item: through its body
+            while i < n:
+                cur.append(kids[i])
+                if kids[i].is_group('{'):
+                    i += 1
+                    break
+                i += 1
+            stmts.append(cur); cur = []
+            continue
         if not cur and t.kind == 'ident' and t.text in ('for', 'while', 'loop', 'if', 'match'):
             # consume through the brace group(s) (and else-chains)
             cur.append(t); i += 1
@@ -217,6 +227,7 @@ class Skeleton:
     create_param: Optional[str] = None
     prologue: List[str] = field(default_factory=list)        # statements before StreamController::new that touch `s`
     body_group: Optional[Tok] = None
+    fn_helpers: set = field(default_factory=set)
 
     def canon(self, name):
         seen = set()
@@ -278,6 +289,31 @@ def scan_create_closure(body: Tok, src: str, sk: Skeleton, create_param: str):
                 visit(st[0].kids)
                 continue
             txt = _text(src, st)
+            if st[0].is_id('fn') and len(st) >= 3 and st[1].kind == 'ident' and st[-1].is_group('{'):
+                # nested fn item: lifted like a helper closure, with its own parameter list
+                pg = next((t for t in st[2:] if t.is_group('(')), None)
+                params = []
+                if pg is not None:
+                    parts, curp, depth = [], [], 0
+                    for t in pg.kids:
+                        if t.is_p('<'):
+                            depth += 1
+                        elif t.is_p('>'):
+                            depth -= 1
+                        if t.is_p(',') and depth <= 0:
+                            parts.append(curp); curp = []
+                        else:
+                            curp.append(t)
+                    if curp:
+                        parts.append(curp)
+                    for part in parts:
+                        if part and part[0].kind == 'ident':
+                            colon = next((k for k, t in enumerate(part) if t.is_p(':')), None)
+                            ty = src[part[colon + 1].start:part[-1].end] if colon is not None else None
+                            params.append((part[0].text, ty))
+                sk.helpers[st[1].text] = Closure(st, params, [st[-1]], False)
+                sk.fn_helpers.add(st[1].text)
+                continue
             if st[0].is_id('let'):
                 c = _cell_init(st, src)
                 if c:
@@ -313,7 +349,6 @@ def scan_create_closure(body: Tok, src: str, sk: Skeleton, create_param: str):
             calls = find_calls(st, 'inner_subscribe')
             if calls:
                 for parent, idx, g in calls:
-                    sk.n_inner_subscribe += 1
                     if parent is st:
                         sk.subscribe_target = _text(src, st[:idx - 1]) if idx >= 1 else ''
                 continue
@@ -335,6 +370,7 @@ def scan_create_closure(body: Tok, src: str, sk: Skeleton, create_param: str):
                 if t.kind == 'group':
                     deep_aliases(t.kids)
     deep_aliases(body.kids)
+    sk.n_inner_subscribe = len(find_calls(body.kids, 'inner_subscribe'))
     # handlers: every `new_observer(a, b, c)` in the closure
     for parent, idx, g in find_calls(body.kids, 'new_observer'):
         sk.n_new_observer += 1
@@ -424,8 +460,39 @@ def rewrite_body(cl: Closure, sk: Skeleton, src: str, op: str, captures: Dict[st
                 raise NotExtractable('nested closure in handler body')
             if t.kind == 'ident' and t.text in ('while', 'loop'):
                 loops += 1
+            if t.is_id('inner_subscribe') and prev is not None and prev.is_p('.') and i + 1 < len(ts) and ts[i + 1].is_group('(') \
+                    and find_calls(ts[i + 1].kids, 'new_observer'):
+                # R7': `E.inner_subscribe(<sctl>.new_observer(a, b, c))` inside a handler  ->  `sctl.subscribe_inner(E)`.
+                # The nested handlers a, b, c are extracted as a unit of their own (next new_observer call in textual order).
+                g = ts[i + 1]
+                inner = find_calls(g.kids, 'new_observer')
+                par, idx, _ = inner[0]
+                recv_ok = idx >= 2 and par[idx - 1].is_p('.') and par[idx - 2].kind == 'ident' and sk.canon(par[idx - 2].text) == sk.sctl
+                if not recv_ok or len(inner) != 1:
+                    raise NotExtractable('inner_subscribe with an observer that is not `<sctl>.new_observer(..)`')
+                # receiver expression E: back to the start of the statement
+                b = i - 1
+                while b > 0 and not (ts[b - 1].is_p(';') or ts[b - 1].is_p('=')):
+                    b -= 1
+                reps.append((ts[b].start, ts[b].start, 'sctl.subscribe_inner('))
+                reps.append((prev.start, g.end, ')'))
+                sctl_used = True
+                i += 2
+                continue
             if t.kind == 'ident' and t.text in ('inner_subscribe', 'subscribe', 'new_observer', 'spawn'):
                 raise NotExtractable('handler subscribes/creates observers (%s)' % t.text)
+            if t.is_id('Arc'):
+                j = match_seq(ts, i, ['Arc', ':', ':', 'clone', '(…)'])
+                if j > 0:
+                    g = ts[j - 1].kids
+                    if len(g) == 2 and g[0].is_p('&') and g[1].kind == 'ident' and (sk.canon(g[1].text) in sk.cells or sk.canon(g[1].text) in sk.outer_cells):
+                        c = sk.canon(g[1].text)
+                        # handing a clone of the cell's Arc to a lifted nested fn = handing over the cell (R1')
+                        reps.append((t.start, ts[j - 1].end, '(&mut *%s)' % c))
+                        if c not in cells_used:
+                            cells_used.append(c)
+                        i = j
+                        continue
             if t.kind == 'ident' and not (prev is not None and prev.is_p('.')) and not (i + 1 < len(ts) and ts[i + 1].is_p(':') and i + 2 < len(ts) and ts[i + 2].is_p(':')):
                 name = t.text
                 canon = sk.canon(name)
@@ -452,6 +519,12 @@ def rewrite_body(cl: Closure, sk: Skeleton, src: str, op: str, captures: Dict[st
                 if sk.sctl and canon == sk.sctl:
                     if name not in local_bound:
                         sctl_used = True
+                        j = match_seq(ts, i + 1, ['.', 'clone', '()'])
+                        if j > 0:
+                            # every clone of the controller denotes the same controller (R2)
+                            reps.append((t.start, ts[j - 1].end, 'sctl'))
+                            i = j
+                            continue
                         if name != 'sctl':
                             reps.append((t.start, t.end, 'sctl'))
                     i += 1
@@ -478,6 +551,13 @@ def rewrite_body(cl: Closure, sk: Skeleton, src: str, op: str, captures: Dict[st
                     i += 1
                     continue
             if t.is_id('let'):
+                j8 = match_seq(ts, i, ['let', 'ident', '=', 'ident', '.', 'clone', '()', ';'])
+                if j8 > 0 and sk.sctl and sk.canon(ts[i + 3].text) == sk.sctl:
+                    # `let A = <controller alias>.clone();` inside a handler: A is just another name of the controller (R2)
+                    reps.append((t.start, ts[j8 - 1].end, ''))
+                    sk.alias.setdefault(ts[i + 1].text, sk.sctl)
+                    i = j8
+                    continue
                 # record locally bound simple names (pattern idents) so that later uses are not mistaken for captures
                 j = i + 1
                 while j < len(ts) and not ts[j].is_p('=') and not ts[j].is_p(';'):
